@@ -51,11 +51,24 @@ def gen(rng):
         if override and extend[0] == override[0]:
             extend = None
     files = {}
-    modtext = ('%import .n.n0\n' if use_nested else '') + ''.join('%s%s: %s\n' % (mods.get(k, ''), k, v) for k, v in mod.items()) + 'MA: "a"\n' + ('MB: MA "b"\n' if term_chain else '')
+    # diamond: a second module b imports a rule of m (which has private dependencies) and is itself imported, next to the direct import from m
+    use_diamond = (not use_nested) and rng.random() < 0.25
+    # in the module file the template's formal parameter may be spelled like a rule of the importing grammar (it is local to the module's template)
+    pname = rng.choice(['x', 'x', 'start'] + main_rules[1:]) if use_template else 'x'
+    def modline(k, v):
+        if k == 'tp{x}':
+            return 'tp{%s}: %s\n' % (pname, re.sub(r'\bx\b', pname, v))
+        return '%s%s: %s\n' % (mods.get(k, ''), k, v)
+    modtext = ('%import .n.n0\n' if use_nested else '') + ''.join(modline(k, v) for k, v in mod.items()) + 'MA: "a"\n' + ('MB: MA "b"\n' if term_chain else '')
     files['m.lark'] = modtext
     if use_nested:
         files['n.lark'] = ''.join('%s: %s\n' % kv for kv in nested.items()) + 'NA: "n"\n'
     imports = ''.join('%%import .m.%s%s\n' % (n, (' -> ' + rename[n]) if rename[n] != n else '') for n in imported)
+    if use_diamond:
+        dname = imported[0]
+        files['b.lark'] = '%%import .m.%s\nb0: %s "w" | "w"\n' % (dname, dname)
+        imports += '%import .b.b0\n'
+        main['start'] += ' | b0'
     if import_template:
         imports += '%import .m.tp\n'
     tail = ''
@@ -97,9 +110,24 @@ def gen(rng):
     else:
         inl_terms = 'MOD__MA: "a"\n'
     inl = ''.join('%s%s: %s\n' % (imods.get(k, ''), k, v) for k, v in bodies.items()) + inl_terms + ('MOD__NA: "n"\n' if use_nested else '')
+    if use_diamond:
+        # b's own copy of everything m defines, under names that cannot clash (the comparison strips module prefixes)
+        space = {n.split('{')[0] for n in mod} | {'MA', 'MB'}
+        def pref(n):
+            if n not in space: return n
+            if n.isupper(): return 'BQ__' + n
+            return ('_bq__' + n[1:]) if n.startswith('_') else 'bq__' + n
+        sub2 = lambda body: re.sub(r'\b(_?[a-zA-Z][_a-zA-Z0-9]*)\b', lambda m_: m_.group(1) if m_.group(1) == 'x' else pref(m_.group(1)), body)
+        for n, b in mod.items():
+            if n == 'tp{x}':
+                inl += 'bq__tp{x}: %s\n' % sub2(b)
+            else:
+                inl += '%s%s: %s\n' % (mods.get(n, ''), pref(n), sub2(b))
+        inl += 'BQ__MA: "a"\n' + ('BQ__MB: BQ__MA "b"\n' if term_chain else '')
+        inl += 'b0: %s "w" | "w"\n' % pref(dname)
     # definitions of the module that nothing reaches are dropped by lark (_remove_unused); in the inlined text they are harmless
     inltext = inl + ''.join('%s: %s\n' % kv for kv in main.items()) + 'A: "a"\nB: "b"\n%ignore " "\n'
-    return {'files': files, 'main': maintext, 'inlined': inltext, 'features': {'template': use_template, 'local_template_same_name': local_template, 'terminal_chain': term_chain, 'nested': use_nested, 'override': bool(override), 'override_changes_modifiers': bool(override and override[2] != mods.get(override[0], '')), 'extend': bool(extend), 'renames': sum(1 for k, v in rename.items() if k != v)}}
+    return {'files': files, 'main': maintext, 'inlined': inltext, 'features': {'template': use_template, 'template_param_named_like_a_local_rule': bool(use_template and pname != 'x'), 'local_template_same_name': local_template, 'terminal_chain': term_chain, 'nested': use_nested, 'diamond': use_diamond, 'override': bool(override), 'override_changes_modifiers': bool(override and override[2] != mods.get(override[0], '')), 'extend': bool(extend), 'renames': sum(1 for k, v in rename.items() if k != v)}}
 
 
 def norm_label(s):
